@@ -288,6 +288,14 @@ def _handle_sat(case, hyps, g, r):
     for base in list(models):
         for grid in (256.0, 16.0):
             models.append({k: (round(v * grid) / grid if isinstance(v, float) else v) for k, v in base.items()})
+    # ... and jittered copies (the solver likes degenerate points -- zeros, ties, kinks of |.| and relu -- where
+    # one-sided derivatives or tie-breaking of the real code may differ from the generic branch)
+    import zlib
+
+    for base in list(models[:2]):
+        for salt in (1, 2, 3):
+            models.append({k: (v + 0.05 * ((zlib.crc32(("%s/%d" % (k, salt)).encode()) % 2001) / 1000.0 - 1.0) if isinstance(v, float) else v)
+                           for k, v in base.items()})
     last = None
     for vals in models:
         rp = replay_goal(case, vals, g.name)
